@@ -330,6 +330,38 @@ def _plain_ops(child, reopen):
     return ops + ([{"op": "open"}, {"op": "operate"}, {"op": "close"}] if reopen else [])
 
 
+def _over_ops(rng, shape, how=None):
+    """a session REPLACED by another open() on the same object, never closed by the user: whatever the connection
+    ever started has to be gone at the release point.
+    open_open: open, open again (retry without close); open_with: open, then a with-block on the same object;
+    drop_reopen: the device goes away inside an operation, the user opens again and carries on (retry loop);
+    drop_with: same, carrying on with a with-block; start_reopen: the stand-in exits before its first prompt (failed open), open again"""
+    how = how or rng.choice(HOWS)
+    if shape == "open_open":
+        return [{"op": "open"}, {"op": "operate"}, {"op": "open"}, {"op": "operate"}, {"op": "close"}, {"op": "close"}]
+    if shape == "open_with":
+        return [{"op": "open"}, {"op": "with", "body_ops": 1, "body_exc": rng.choice([None, "ValueError"])}, {"op": "close"},
+                {"op": "with", "body_ops": 1}]
+    if shape == "drop_reopen":
+        return [{"op": "open", "child": _dev(die_on="show version", delay=0, how=how)}, {"op": "operate"}, {"op": "open"},
+                {"op": "operate"}, {"op": "close"}]
+    if shape == "drop_with":
+        return [{"op": "open", "child": _dev(die_on="show version", delay=0, how=how)}, {"op": "operate"},
+                {"op": "with", "body_ops": 1}, {"op": "open"}, {"op": "close"}]
+    if shape == "drop_open_open":       # both kinds in one history: over a dropped session, then over a live one
+        return [{"op": "open", "child": _dev(die_on="show version", delay=0, how=how)}, {"op": "operate"}, {"op": "open"},
+                {"op": "operate"}, {"op": "open"}, {"op": "operate"}, {"op": "close"}]
+    if shape == "drop_open_with":
+        return [{"op": "open", "child": _dev(die_on="show version", delay=0, how=how)}, {"op": "operate"}, {"op": "open"},
+                {"op": "operate"}, {"op": "with", "body_ops": 1, "body_exc": rng.choice([None, "ValueError"])}]
+    if shape == "start_reopen":
+        return [{"op": "open", "child": _dev(die_at=rng.choice([0, 1]), how=how)}, {"op": "open"}, {"op": "operate"}, {"op": "close"}]
+    raise ValueError(shape)
+
+
+OVER_SHAPES = ["open_open", "open_with", "drop_reopen", "drop_with", "start_reopen", "drop_open_open", "drop_open_with"]
+
+
 def fixed_scenarios(rng, thorough):
     """every kind of going-away (before the first prompt, inside on_open, inside the body / an operation, inside
     on_close, exec failures after the fork, refusal before the fork), left through a with-block and through
@@ -352,6 +384,9 @@ def fixed_scenarios(rng, thorough):
                 kind = rng.choice(KINDS)
                 add(kind, [{"op": "with", "child": child}, {"op": "with", "child": child}, {"op": "with", "body_ops": 1}])
                 add(kind, [{"op": "open", "child": child}, {"op": "close"}, {"op": "close"}, {"op": "open"}, {"op": "operate"}, {"op": "close"}])
+        for kind in KINDS:
+            for shape in OVER_SHAPES:
+                add(kind, _over_ops(rng, shape))
         return out
     add(rng.choice(CORE), _with_ops(rng, gen_child(rng, "body"), False))
     add(rng.choice(CORE), _plain_ops(gen_child(rng, "body"), True))
@@ -364,12 +399,22 @@ def fixed_scenarios(rng, thorough):
     return out
 
 
+def over_scenarios(rng, thorough):
+    """quick tier: ONE history that re-opens after a device drop AND opens over the live session (then close() or a
+    with-block on the same object), one drawn platform (own generator stream in the caller: the other suites' draws do not
+    move); thorough: every shape x platform is part of fixed_scenarios"""
+    if thorough:
+        return []
+    return [{"kind": rng.choice(KINDS), "log": rng.random() < 0.5,
+             "ops": _over_ops(rng, rng.choice(["drop_open_open", "drop_open_open", "drop_open_with"]))}]
+
+
 def gen_history(rng):
     kind = rng.choice(CORE + CORE + ["generic"])
     ops = []
     is_open = False
     for _ in range(rng.randint(2, 4)):
-        k = rng.choice(["open", "with", "with"]) if not is_open else rng.choice(["operate", "close", "close"])
+        k = rng.choice(["open", "with", "with"]) if not is_open else rng.choice(["operate", "close", "close", "open", "with"])
         op = {"op": k}
         if k in ("open", "with"):
             if rng.random() < 0.75:
@@ -378,6 +423,7 @@ def gen_history(rng):
                 op["body_ops"] = rng.choice([0, 1, 1, 2])
                 op["body_exc"] = rng.choice([None, None, "ValueError", "KeyError"])
                 op["swallow"] = rng.random() < 0.3
+                is_open = False
             else:
                 is_open = True
         elif k == "close":
